@@ -284,12 +284,6 @@ ConvVal(D, f, v, p) ==
 (* yaml.rs:170-175: serde_yaml::to_writer, then one more newline.  The last *)
 (* scalar of the document, when it is a block scalar with `keep` chomping   *)
 (* (a string ending in a blank line), absorbs that newline.                  *)
-RECURSIVE LastScalar(_)
-LastScalar(x) ==     \* the document's last item in emission order, or "none"
-  CASE x.d = "arr" -> IF Len(x.xs) = 0 THEN [d |-> "none"] ELSE LastScalar(x.xs[Len(x.xs)])
-    [] x.d = "obj" -> IF Len(x.ms) = 0 THEN [d |-> "none"] ELSE LastScalar(x.ms[Len(x.ms)].dv)
-    [] OTHER -> x
-
 RECURSIVE BumpLast(_)
 BumpLast(x) ==
   CASE x.d = "arr" /\ Len(x.xs) > 0 ->
